@@ -156,8 +156,25 @@ def target_structure(ck, I, L, times_vns, full, geo, count, roles, method, rule,
         detail = f"{len(cm)} conditional zeroing mask(s)"
         if ok:
             cond, pol, mask = cm[0]
-            core = cond_core(cond)
-            ok = (core.op == "Cfg" and core.attr == SUN_MOON_SWITCH and pol is True and mask is not None
+
+            def truth(n_, sw):
+                """value of the branch condition when the switch is sw (constants folded), or None"""
+                if n_.op == "Const":
+                    return bool(n_.attr)
+                if n_.op == "Cfg" and n_.attr == SUN_MOON_SWITCH:
+                    return sw
+                if n_.op == "UnaryOp" and n_.attr == "Not":
+                    t_ = truth(n_.args[0], sw)
+                    return None if t_ is None else not t_
+                if n_.op == "BoolOp":
+                    ts = [truth(a_, sw) for a_ in n_.args]
+                    if n_.attr == "And":
+                        return False if any(t_ is False for t_ in ts) else (None if any(t_ is None for t_ in ts) else True)
+                    return True if any(t_ is True for t_ in ts) else (None if any(t_ is None for t_ in ts) else False)
+                return None
+            # the cut is applied exactly when the switch is on, however the test is spelled (if switch: ..., or a helper
+            # that returns "nothing to remove" when `not switch or method != 'Optical'`)
+            ok = (truth(cond, True) is pol and truth(cond, False) is (not pol) and mask is not None
                   and mask.op == "UnaryOp" and mask.attr in ("Invert", "Not"))
             detail = f"zeroed where {g.show(mask, 2) if mask is not None else '?'} if {g.show(cond, 2)} is {pol}"
             out["darksky"] = (cond, mask)
